@@ -189,8 +189,10 @@ def str_method(I, s, name):
     def upper(I_, a, k):
         if conc(a):
             return native(a, k)
-        raise Undecided("upper on symbolic string")
-    t = {"format": fmt, "strip": strip_like, "lstrip": strip_like, "rstrip": strip_like, "startswith": startswith, "endswith": endswith, "join": join, "find": find, "index": index,
+        # case mapping of a symbolic string: uninterpreted (ASCII-only inputs assumed by the contracts that use it)
+        f = z3.Function("py_" + name, z3.StringSort(), z3.StringSort())
+        return SStr(f(me.term), isb)
+    t = {"upper": upper, "lower": upper, "format": fmt, "strip": strip_like, "lstrip": strip_like, "rstrip": strip_like, "startswith": startswith, "endswith": endswith, "join": join, "find": find, "index": index,
          "encode": enc, "decode": dec, "split": split}
     return MF("str." + name, t.get(name, generic))
 
@@ -238,10 +240,12 @@ def re_exec(I, pat, s, mode):
     if I.cfg.get("regex_abstract"):
         # data-flow mode: the match succeeds or not (free choice) and the groups are unconstrained strings;
         # what the pattern accepts is decided separately by regular-language obligations
+        given = I.cfg.get("regex_group_values", {})
+        mo = MatchObj(s, {i + 1: given.get(i + 1, SStr(z3.String("G%d" % (i + 1)), s.is_bytes)) for i in range(pat.groups)})
+        mo.names = dict(pat.groupindex)
+        I.ghost.setdefault("regex_calls", []).append((pat, s, mo, mode))
         if not I.path.branch(z3.Bool(fresh_name("regex_matches"))):
             return None
-        mo = MatchObj(s, {i + 1: SStr(z3.String("G%d" % (i + 1)), s.is_bytes) for i in range(pat.groups)})
-        I.ghost.setdefault("regex_calls", []).append((pat, s, mo))
         return mo
     L, tr = R.search_language(pat.pattern, pat.flags, ascii_only, mode)
     if not I.path.branch(z3.InRe(s.term, L)):
@@ -311,6 +315,8 @@ def match_attr(I, m, name):
         if not a:
             return m.whole
         idx = a[0]
+        if isinstance(idx, str):
+            idx = getattr(m, "names", {}).get(idx, idx)
         if idx == 0:
             return m.whole
         if idx not in m.groups:
